@@ -10,6 +10,7 @@ from ..cparse import Header
 from ..core import Unrecognised, Report
 from ..lin import Lin
 from ..repo import chain, params, src, strip_docstring, calls
+from .. import constfold
 from ..tables import Bool, Sign, check_table, SKIP
 
 
@@ -342,9 +343,56 @@ def r3_polya(repo, report):
     report.ob("C14.R3", "poly_a_trim_index: result", rets == ["best_index"], facts={"returns": rets}, expected="best_index", loc=repo.loc(fn))
 
 
+def _nends_folded(repo, report):
+    """NEndTrimmer without regular expressions: __call__ is then a closed function of the sequence (the record is only sliced
+    and measured).  It is folded for every string over {A, N, c} up to length 6 and compared with 'strip the maximal runs of
+    N at both ends'."""
+    import copy
+    import itertools
+    c, call = repo.need_method("NEndTrimmer", "__call__")
+    ps = params(call)
+    rd = ps[1]
+
+    class T(ast.NodeTransformer):
+        def visit_Attribute(self, node):
+            self.generic_visit(node)
+            if isinstance(node.value, ast.Name) and node.value.id == rd and node.attr == "sequence":
+                return ast.copy_location(ast.Name(id=rd, ctx=ast.Load()), node)
+            return node
+
+    fn = T().visit(copy.deepcopy(call))
+    ast.fix_missing_locations(fn)
+    bad, n = [], 0
+    try:
+        for length in range(0, 7):
+            for tup in itertools.product("ANc", repeat=length):
+                seq = "".join(tup)
+                env = {rd: seq, "self": {"__attrs__": {}}}
+                if len(ps) > 2:
+                    env[ps[2]] = None
+                got = constfold.fold_function(fn, env)
+                n += 1
+                want = seq[len(seq) - len(seq.lstrip("N")): len(seq.rstrip("N"))] if seq.strip("N") else ""
+                if got != want:
+                    bad.append({"sequence": seq, "returned": got, "expected": want})
+                    if len(bad) >= 3:
+                        raise StopIteration
+    except StopIteration:
+        pass
+    except constfold.NotConstant as e:
+        report.unrecognised("C14.R4", "NEndTrimmer", f"neither the two anchored patterns nor a closed function of the sequence ({e})", repo.loc(call))
+        return
+    report.ob("C14.R4", "NEndTrimmer removes exactly the runs of N at both ends", not bad, facts={"sequences": n, "wrong": bad}, cases=n, loc=repo.loc(call),
+              expected="read[<length of the leading run of N> : <start of the trailing run of N>]",
+              why=(f"for the sequence {bad[0]['sequence']!r} the modifier returns {bad[0]['returned']!r}, expected {bad[0]['expected']!r}" if bad else ""))
+
+
 def r4_nends(repo, report):
     import re._parser as rp
 
+    init_probe = repo.method("NEndTrimmer", "__init__")[1]
+    if init_probe is None or not any(isinstance(x, ast.Call) and chain(x.func) == "re.compile" for x in ast.walk(init_probe)):
+        return _nends_folded(repo, report)
     c, init = repo.need_method("NEndTrimmer", "__init__")
     pats = {}
     for n in ast.walk(init):
